@@ -253,6 +253,62 @@ pub fn log_quality_state(c: &SrtlaConnection, quality_mult: f64, base: f64, fina
 _FRAME_LATCH = C('C12.select.update_stall_latch.touches_only_latch_fields',
                  '''old(self).same_acct(final(self)) && final(self).same_cfg_cache(old(self))
             && final(self).silence_pulled == old(self).silence_pulled && final(self).silence_pulls == old(self).silence_pulls''')
+# ---- C13 [L]: the step contract as one relation over (pre, post, clock, thresholds), and what a chain of decisions amounts to
+LATCH_TRACE = r"""
+pub struct LatchDecision { pub pre: SrtlaConnection, pub post: SrtlaConnection, pub now: u64, pub min_in_flight: i32, pub ceiling: u64 }
+// exactly the rejoin-related clauses of update_stall_latch's contract, as a relation
+pub open spec fn latch_step(d: LatchDecision) -> bool {
+    &&& (d.pre.spec_latched() && !d.post.spec_latched() ==> d.pre.proof_fresh(d.now, d.ceiling) && d.pre.stall_recovery_since_ms != 0
+            && sub_sat(d.now, d.pre.stall_recovery_since_ms) >= sat_mul_u64(d.pre.spec_eff_stale(d.ceiling), 2))
+    &&& (d.pre.spec_latched() && !d.pre.proof_fresh(d.now, d.ceiling) ==> d.post.stall_recovery_since_ms == 0 && d.post.spec_latched())
+    &&& (d.post.stall_recovery_since_ms == 0 || d.post.stall_recovery_since_ms == d.pre.stall_recovery_since_ms || d.post.stall_recovery_since_ms == d.now)
+    &&& (d.post.stall_recovery_since_ms != 0 ==> d.pre.proof_fresh(d.now, d.ceiling) && d.post.spec_latched())
+    &&& (d.post.stall_recovery_since_ms != 0 && d.pre.stall_recovery_since_ms != 0 ==> d.post.stall_recovery_since_ms == d.pre.stall_recovery_since_ms)
+}
+// consecutive scheduling decisions on one link: whatever happens in between (ACKs, echoes, traffic) leaves the two latch stamps alone
+// (that is the frame of every other function: C12) and the clock does not run backwards
+pub open spec fn latch_chain(tr: Seq<LatchDecision>) -> bool {
+    &&& forall|i: int| 0 <= i < tr.len() ==> latch_step(#[trigger] tr[i]) && tr[i].now > 0
+    &&& forall|i: int, i2: int| 0 <= i && i2 == i + 1 && i2 < tr.len() ==> (#[trigger] tr[i2]).pre.stall_recovery_since_ms == (#[trigger] tr[i]).post.stall_recovery_since_ms && tr[i].now <= tr[i2].now
+}
+// searching backwards for the decision that started the run which is in progress before decision j
+pub proof fn lemma_run_start(tr: Seq<LatchDecision>, n: int, j: int) -> (k: int)
+    requires latch_chain(tr), 0 <= j <= n < tr.len(), tr[0].pre.stall_recovery_since_ms == 0, tr[n].pre.stall_recovery_since_ms != 0,
+        forall|i: int| j <= i <= n ==> (#[trigger] tr[i]).pre.stall_recovery_since_ms == tr[n].pre.stall_recovery_since_ms,
+        forall|i: int| j <= i < n ==> (#[trigger] tr[i]).pre.proof_fresh(tr[i].now, tr[i].ceiling),
+    ensures 0 <= k < j, tr[k].now == tr[n].pre.stall_recovery_since_ms,
+        forall|i: int| k <= i < n ==> (#[trigger] tr[i]).pre.proof_fresh(tr[i].now, tr[i].ceiling),
+    decreases j,
+{
+    let r = tr[n].pre.stall_recovery_since_ms;
+    assert(j > 0);                       // tr[0].pre has no run, tr[j].pre has run r != 0
+    let d = tr[j - 1];
+    assert(latch_step(d));
+    assert(tr[j].pre.stall_recovery_since_ms == d.post.stall_recovery_since_ms);
+    assert(d.post.stall_recovery_since_ms == r);
+    assert(d.pre.proof_fresh(d.now, d.ceiling));
+    if d.pre.stall_recovery_since_ms == r {
+        lemma_run_start(tr, n, j - 1)
+    } else {
+        assert(d.pre.stall_recovery_since_ms == 0);
+        assert(r == d.now);
+        j - 1
+    }
+}
+// the history clause of C13: a latch released at decision n was preceded by a run of decisions k..n that ALL saw fresh delivery proof,
+// started at least twice the effective window before the release
+pub proof fn lemma_rejoin_needs_a_fresh_run_of_twice_the_window(tr: Seq<LatchDecision>, n: int) -> (k: int)
+    requires latch_chain(tr), 0 <= n < tr.len(), tr[0].pre.stall_recovery_since_ms == 0,
+        tr[n].pre.spec_latched() && !tr[n].post.spec_latched(),
+    ensures 0 <= k < n,
+        forall|i: int| k <= i <= n ==> (#[trigger] tr[i]).pre.proof_fresh(tr[i].now, tr[i].ceiling),  // @ob C13.select.lemma.every_decision_of_the_run_saw_fresh_proof
+        sub_sat(tr[n].now, tr[k].now) >= sat_mul_u64(tr[n].pre.spec_eff_stale(tr[n].ceiling), 2),  // @ob C13.select.lemma.the_run_lasted_twice_the_effective_window
+{
+    assert(latch_step(tr[n]));
+    let k = lemma_run_start(tr, n, n);
+    k
+}
+"""
 LATCH_ENSURES = [
     _FRAME_LATCH,
     'final(self).latch_wf()',
@@ -275,6 +331,8 @@ LATCH_ENSURES = [
       'final(self).stall_gate_events == old(self).stall_gate_events + (if !old(self).spec_latched() && final(self).spec_latched() { 1int } else { 0int })'),
     '!old(self).spec_latched() && final(self).spec_latched() ==> final(self).stall_latched_since_ms == now_ms',
     'old(self).spec_latched() && final(self).spec_latched() ==> final(self).stall_latched_since_ms == old(self).stall_latched_since_ms',
+    # the rejoin clauses under one name (trace lemma below)
+    C('C13.select.update_stall_latch.contract_as_one_relation', 'latch_step(LatchDecision { pre: *old(self), post: *final(self), now: now_ms, min_in_flight: min_in_flight, ceiling: stale_ceiling_ms })'),
 ]
 
 PULL_ENSURES = [
